@@ -403,6 +403,23 @@ class Interp:
         self.lambdas: Dict[int, tuple] = {}
         self._ids = itertools.count(1)
         self._simple_cache: Dict[int, bool] = {}
+        self._memo_verdict: Dict[str, bool] = {}      # module-level table -> proved to be a pure memo (vstatic/memo.py)
+        self._memo_mode: Dict[str, tuple] = {}        # while a table is being judged: ("hit", key, value) / ("miss",)
+
+    def memo_mode(self, gname: str):
+        """None: read the table as ordinary state; ("miss",): every lookup misses; ("hit", key, value): every lookup finds value."""
+        if gname in self._memo_mode:
+            return self._memo_mode[gname]
+        if not gname.startswith("pykdebugparser."):
+            return None
+        if gname not in self._memo_verdict:
+            self._memo_verdict[gname] = False         # plain reading while it is judged (and for anything recursive)
+            from . import memo
+            try:
+                self._memo_verdict[gname] = memo.judge(self, gname)
+            except AnalysisError:
+                self._memo_verdict[gname] = False
+        return ("miss",) if self._memo_verdict[gname] else None
 
     # ------------------------------------------------------------ public API
     def run(self, mod: ModuleInfo, fnode: ast.FunctionDef, args: Optional[Dict[str, T]] = None,
@@ -2417,6 +2434,10 @@ class _Frame:
         return T("sub", (v, idx))
 
     def effect(self, kind, base, key, value, args, st, node, aug=None, aug_val=None, path=None):
+        if kind in ("sub-store", "mut-call", "del-sub"):
+            root = root_of(path if path is not None else base) if (path is not None or base is not None) else None
+            if root is not None and root.op == "global" and self.I.memo_mode(root.a[0]) is not None:
+                kind = "memo-" + kind          # a proved memo table: not state (vstatic/memo.py)
         self.rec.effects.append(Effect(kind, base, key, value if aug_val is None else aug_val, args, st.pc, self.loops,
                                        self.trys, self.seq(), self.qualname, getattr(node, "lineno", 0),
                                        getattr(node, "col_offset", 0), aug, path,
@@ -3425,7 +3446,9 @@ class _Frame:
             right = self.eval(cmp_, st)
             opname = _CMPOPS[type(op)]
             folded = None
-            if left.op == "const" and right.op == "const":
+            if opname in ("in", "not in") and right.op == "global" and self.I.memo_mode(right.a[0]) is not None:
+                folded = (self.I.memo_mode(right.a[0])[0] == "hit") == (opname == "in")
+            elif left.op == "const" and right.op == "const":
                 folded = _fold_cmp(opname, left.a[0], right.a[0])
             elif right.op in ("tuple", "list") and opname in ("in", "not in") and not right.a[0]:
                 folded = opname == "not in"
@@ -3810,6 +3833,10 @@ class _Frame:
                 continue
             kwargs.append((k.arg if k.arg is not None else "**", kv_))
         args_t, kwargs_t = tuple(args), tuple(kwargs)
+        if func.op == "attr" and func.a[1] == "get" and func.a[0].op == "global" and 1 <= len(args_t) <= 2 and not kwargs_t:
+            mm = self.I.memo_mode(func.a[0].a[0])
+            if mm is not None:
+                return (args_t[1] if len(args_t) == 2 else NONE) if mm[0] == "miss" else mm[2]
         while func.op == "call" and func.a[0] == T("global", ("functools.partial",)) and func.a[1] \
                 and not any(a.op == "star" for a in func.a[1]) \
                 and not any(k == "**" for k, _ in func.a[2] + kwargs_t):
